@@ -225,6 +225,59 @@ func (db *Database) DeleteControllerInput(controllerName string, dep controller.
 	return nil
 }
 
+// DeleteController removes every input and output registered for the controller.
+//
+// It is used to roll back a controller registration which failed half-way.
+func (db *Database) DeleteController(controllerName string) {
+	db.mu.Lock()
+	defer db.mu.Unlock()
+
+	for resourceType, exclusiveController := range db.exclusiveOutputs {
+		if exclusiveController == controllerName {
+			delete(db.exclusiveOutputs, resourceType)
+		}
+	}
+
+	for resourceType, sharedControllers := range db.sharedOutputs {
+		idx, found := slices.BinarySearch(sharedControllers, controllerName)
+		if !found {
+			continue
+		}
+
+		sharedControllers = slices.Delete(sharedControllers, idx, idx+1)
+
+		if len(sharedControllers) == 0 {
+			delete(db.sharedOutputs, resourceType)
+		} else {
+			db.sharedOutputs[resourceType] = sharedControllers
+		}
+	}
+
+	isThisController := func(s string) bool {
+		return s == controllerName
+	}
+
+	for _, dep := range db.controllerInputs[controllerName] {
+		key := namespaceType{
+			Namespace: dep.Namespace,
+			Type:      dep.Type,
+		}
+
+		if id, ok := dep.ID.Get(); ok {
+			keyID := namespaceTypeID{
+				namespaceType: key,
+				ID:            id,
+			}
+
+			db.inputLookupID[keyID] = slices.DeleteFunc(db.inputLookupID[keyID], isThisController)
+		} else {
+			db.inputLookup[key] = slices.DeleteFunc(db.inputLookup[key], isThisController)
+		}
+	}
+
+	delete(db.controllerInputs, controllerName)
+}
+
 // GetControllerInputs returns a list of controller dependencies.
 func (db *Database) GetControllerInputs(controllerName string) ([]controller.Input, error) {
 	db.mu.Lock()
